@@ -1225,7 +1225,35 @@ func osReaddirnames(e *Engine, fr *frame, _ token.Pos, a []Value) Value {
 		panic(unsupported("Readdirnames on an unmodelled file"))
 	}
 	names := e.dirs[strings.TrimPrefix(o.What, "dir:")]
-	out := make([]Value, len(names))
-	copy(out, names)
+	// os.File.Readdirnames(n): n <= 0 returns everything that is left and a nil
+	// error; n > 0 returns at most n names and, once nothing is left, an empty
+	// slice and io.EOF.  The handle remembers how far it has read.
+	nT := asT(a[1])
+	if !nT.IsConst() {
+		panic(unsupported("Readdirnames with a symbolic count"))
+	}
+	n := int(int64(nT.Val))
+	if e.dirOff == nil {
+		e.dirOff = map[*Value]int{}
+	}
+	off := e.dirOff[f]
+	rest := names[off:]
+	if n > 0 {
+		if len(rest) == 0 {
+			eof := Value(Iface{})
+			if pkg := e.prog.ImportedPackage("io"); pkg != nil {
+				if g := pkg.Var("EOF"); g != nil {
+					eof = *e.global(g)
+				}
+			}
+			return Tuple{[]Value{}, eof}
+		}
+		if len(rest) > n {
+			rest = rest[:n]
+		}
+	}
+	e.dirOff[f] = off + len(rest)
+	out := make([]Value, len(rest))
+	copy(out, rest)
 	return Tuple{out, Iface{}}
 }
